@@ -232,8 +232,8 @@ def run(ck: Check):
     obligations, discharged, axioms = standard_proof_step(
         ck, extra_targets=["Model/DtdCorr.vo", "Proofs/Cm.vo", "Proofs/Dtd.vo"])
     r = ck.rng
-    NPROG = int(os.environ.get("C16_NPROG") or ck.n(40, 1200))
-    NDOC = int(os.environ.get("C16_NDOC") or ck.n(20, 200))
+    NPROG = int(os.environ.get("C16_NPROG") or ck.n(40, 500))
+    NDOC = int(os.environ.get("C16_NDOC") or ck.n(20, 60))
 
     # ---------------- programs
     flavours = [None] * 9 + ["prefix-attrs", "prefix-attrs", "default-ns", "prefix-attrs", "prefix-elements"]
